@@ -23,3 +23,5 @@ def run(prog, rep):
     _rio.run_dcpl(prog, rep)
     from ..rules import r_io as _rio3
     _rio3.run_memtype(prog, rep)
+    from ..rules import r_null as _rn
+    _rn.run_cstr_args(prog, rep)
